@@ -15,3 +15,23 @@ pub proof fn lemma_payload_sum_push(es: Seq<Entry>, e: Entry)
 {
     assert(es.push(e).drop_last() =~= es);
 }
+
+// C01: a range counts as done when parsing consumed its whole buffer and the range reached the end of its block
+pub open spec fn range_done(c: usize, p: ReadPlan, blen: int) -> bool {
+    c == blen && (p.is_tail || p.end >= p.blk.used)
+}
+pub open spec fn ranges_done(consumed: Seq<usize>, plan: Seq<ReadPlan>, buffers: Seq<Vec<u8>>, n: int) -> bool {
+    consumed.len() == n && n <= plan.len() && n <= buffers.len()
+        && forall|j: int| 0 <= j < n ==> range_done(#[trigger] consumed[j], plan[j], buffers[j].len() as int)
+}
+pub proof fn lemma_ranges_done_push(consumed: Seq<usize>, plan: Seq<ReadPlan>, buffers: Seq<Vec<u8>>, n: int, c: usize)
+    requires ranges_done(consumed, plan, buffers, n), n < plan.len(), n < buffers.len(),
+    ensures range_done(c, plan[n], buffers[n].len() as int) ==> ranges_done(consumed.push(c), plan, buffers, n + 1)
+{
+    let c2 = consumed.push(c);
+    if range_done(c, plan[n], buffers[n].len() as int) {
+        assert forall|j: int| 0 <= j < n + 1 implies range_done(#[trigger] c2[j], plan[j], buffers[j].len() as int) by {
+            if j < n { assert(c2[j] == consumed[j]); }
+        }
+    }
+}
